@@ -607,3 +607,299 @@ Proof.
   - destruct H as (HF & _). left. unfold iter_step. rewrite Hh, HF. reflexivity.
   - destruct H.
 Qed.
+
+(* a yield comes from a header that was read, and the stream afterwards is the stream after the header line,
+   advanced (by the content read, if any) *)
+Lemma iter_step_yield_inv : forall orc chunk st valid encs prev r st' valid' encs' prev',
+  iter_step orc chunk st valid encs prev = SYield r st' valid' encs' prev' ->
+  exists level name id opts line st1,
+    read_header chunk valid st = HdrOk level name id opts line st1 /\
+    s_data (st_stream st') = s_data (st_stream st1) /\ s_pos (st_stream st1) <= s_pos (st_stream st').
+Proof.
+  intros orc chunk st valid encs prev r st' valid' encs' prev' H. unfold iter_step in H.
+  destruct (read_header chunk valid st) as [|level name id opts line st1|? ?|?] eqn:Eh; try discriminate.
+  exists level, name, id, opts, line, st1. split; [reflexivity|].
+  repeat match type of H with
+         | (match read_content ?a ?b ?c ?d ?e ?f with _ => _ end) = _ =>
+             let E := fresh "Ec" in destruct (read_content a b c d e f) eqn:E; try discriminate;
+             apply framing in E; cbv zeta in E; destruct E as (_ & _ & E3 & _)
+         | (match ?x with _ => _ end) = _ => destruct x eqn:?; try discriminate
+         | (if ?x then _ else _) = _ => destruct x eqn:?; try discriminate
+         end;
+  inversion H; subst;
+  first [ rewrite E3; cbn [advance s_data s_pos]; split; [reflexivity|lia] | split; [reflexivity|lia] ].
+Qed.
+
+(* every yield consumes at least one byte (the header line's LF) *)
+Lemma iter_step_progress : forall orc chunk st valid encs prev r st' valid' encs' prev',
+  0 < chunk -> wf_rstate st ->
+  iter_step orc chunk st valid encs prev = SYield r st' valid' encs' prev' ->
+  wf_rstate st' /\ s_data (st_stream st') = s_data (st_stream st) /\ s_pos (st_stream st) < s_pos (st_stream st').
+Proof.
+  intros orc chunk st valid encs prev r st' valid' encs' prev' Hc Hwf H.
+  split; [eapply iter_step_wf; eauto|].
+  destruct (iter_step_yield_inv _ _ _ _ _ _ _ _ _ _ _ H) as (level & name & id & opts & line & st1 & Hh & Hd & Hp).
+  pose proof (read_header_lift [] chunk valid st Hc Hwf) as L. rewrite Hh in L.
+  destruct L as (_ & L). destruct (L _ _ _ _ _ _ eq_refl) as (_ & L1 & L2). split; [congruence|lia].
+Qed.
+
+Lemma read_header_exhausted : forall chunk valid st,
+  0 < chunk -> remaining (st_stream st) = [] -> read_header chunk valid st = HdrEof.
+Proof.
+  intros chunk valid st Hc H. unfold read_header. rewrite H. cbn [List.length next_nonblank].
+  rewrite read_until_abs_correct by assumption. unfold read_until_abs. rewrite H. reflexivity.
+Qed.
+
+Lemma iter_loop_S : forall f orc chunk st valid encs prev acc,
+  iter_loop (S f) orc chunk st valid encs prev acc =
+  match iter_step orc chunk st valid encs prev with
+  | SDone => (frev acc, TEnd)
+  | SParse l c => (frev acc, TParse l c)
+  | SExc e => (frev acc, TExc e)
+  | SYield r st' valid' encs' prev' => iter_loop f orc chunk st' valid' encs' prev' (r :: acc)
+  end.
+Proof. reflexivity. Qed.
+
+Lemma iter_loop_exhausted : forall fuel orc chunk st valid encs prev acc,
+  0 < chunk -> remaining (st_stream st) = [] ->
+  iter_loop fuel orc chunk st valid encs prev acc = (rev acc, match fuel with O => TFuel | S _ => TEnd end).
+Proof.
+  intros fuel orc chunk st valid encs prev acc Hc H. destruct fuel as [|f].
+  - cbn [iter_loop]. rewrite frev_rev. reflexivity.
+  - rewrite iter_loop_S. unfold iter_step. rewrite read_header_exhausted by assumption. rewrite frev_rev. reflexivity.
+Qed.
+
+(* the fuel of read_all always suffices *)
+Lemma iter_loop_no_fuel : forall fuel orc chunk st valid encs prev acc,
+  0 < chunk -> wf_rstate st -> List.length (remaining (st_stream st)) < fuel ->
+  snd (iter_loop fuel orc chunk st valid encs prev acc) <> TFuel.
+Proof.
+  induction fuel as [|f IH]; intros orc chunk st valid encs prev acc Hc Hwf Hf; [lia|].
+  rewrite iter_loop_S. destruct (iter_step orc chunk st valid encs prev) as [|r st' v e p|l c|e] eqn:Hs;
+    try (cbn [snd]; discriminate).
+  destruct (iter_step_progress _ _ _ _ _ _ _ _ _ _ _ Hc Hwf Hs) as (W & D & P).
+  apply IH; [assumption|assumption|].
+  rewrite !remaining_length in *. unfold wf_rstate, wf_stream in *. rewrite D in W |- *. lia.
+Qed.
+
+Theorem read_all_no_fuel : forall orc chunk data, 0 < chunk -> snd (read_all orc chunk data) <> TFuel.
+Proof.
+  intros orc chunk data Hc. unfold read_all. apply iter_loop_no_fuel; [assumption|apply wf_initial|].
+  unfold remaining. cbn [st_stream s_data s_pos skipn]. lia.
+Qed.
+
+(* C07, prefix determinism. The stream is over d1 ++ d2 and the reader state is at a position inside d1.
+   If one iteration over the whole data yields a record and leaves the stream at a position still inside d1 — i.e. it
+   consumed only bytes of d1 — then the same iteration over d1 ALONE yields the same record, the same [valid]
+   set, encoding stack and level, and the same successor state (same position, line counter and newline convention;
+   only s_data differs). A step that completes inside a prefix does not depend on anything after the prefix. *)
+Theorem prefix_determinism : forall d2 orc chunk st valid encs prev r stF' valid' encs' prev',
+  0 < chunk -> wf_rstate st ->
+  iter_step orc chunk (lift d2 st) valid encs prev = SYield r stF' valid' encs' prev' ->
+  s_pos (st_stream stF') <= List.length (s_data (st_stream st)) ->
+  exists st',
+    iter_step orc chunk st valid encs prev = SYield r st' valid' encs' prev' /\
+    stF' = lift d2 st' /\ wf_rstate st'.
+Proof.
+  intros d2 orc chunk st valid encs prev r stF' valid' encs' prev' Hc Hwf HF Hpos.
+  destruct d2 as [|b d2'].
+  { rewrite lift_nil in HF. exists stF'. rewrite lift_nil. split; [exact HF|]. split; [reflexivity|].
+    eapply iter_step_wf; eauto. }
+  set (d2 := b :: d2') in *.
+  destruct (iter_step_lift d2 orc chunk st valid encs prev Hc Hwf) as [A|[Bc|C]].
+  - rewrite A in HF. destruct (iter_step orc chunk st valid encs prev) as [|r0 st' v e p|l c|e] eqn:Hs;
+      cbn [lift_step] in HF; try discriminate HF.
+    inversion HF; subst. exists st'. split; [reflexivity|]. split; [reflexivity|]. eapply iter_step_wf; eauto.
+  - exfalso.
+    destruct (iter_step_yield_inv _ _ _ _ _ _ _ _ _ _ _ HF) as (level & name & id & opts & line & stF1 & HhF & _ & Hp).
+    pose proof (read_header_lift d2 chunk valid st Hc Hwf) as L. rewrite Bc in L.
+    specialize (L _ _ _ _ _ _ HhF). lia.
+  - exfalso.
+    destruct C as (level & name & id & opts & line & st1 & n & Hh & HhF & W & Hcont & Hl & Hshort).
+    destruct (iter_step_framing _ _ _ _ _ _ _ _ _ _ _ _ _ _ _ _ _ _ HhF Hcont Hl HF) as (S1 & _ & S3 & _).
+    pose proof (read_header_lift d2 chunk valid st Hc Hwf) as L. rewrite Hh in L. destruct L as (_ & L).
+    destruct (L _ _ _ _ _ _ eq_refl) as (_ & _ & L2).
+    cbn [lift st_stream] in S1, S3. rewrite remaining_lift in S1, S3 by exact W.
+    rewrite S1 in Hpos. cbn [advance s_pos lift_stream] in Hpos. rewrite S3, app_length in Hpos.
+    pose proof (wf_pos_remaining _ W) as Q. rewrite L2 in Q. subst d2. cbn [List.length] in Hpos. lia.
+Qed.
+
+(* ---- the whole run ---- *)
+
+Definition prefix {A} (l1 l2 : list A) : Prop := exists t, l2 = l1 ++ t.
+
+(* same header fields (everything but the payload) *)
+Definition hdr_eq (r r' : record) : Prop :=
+  r_level r = r_level r' /\ r_type r = r_type r' /\ r_id r = r_id r' /\ r_opts r = r_opts r' /\ r_line r = r_line r'.
+
+(* the signature of the known finding "short-read-accepted": the iteration from state st read a content-section header
+   declaring length=n with fewer than n bytes left in the stream, fp.read returned what there was without complaint,
+   and the record r was yielded from those bytes, leaving the stream exhausted *)
+Definition short_read (orc : oracle) (chunk : nat) (st : rstate) (valid : list bytes) (encs : list (option pv))
+           (prev : nat) (r : record) : Prop :=
+  exists level name id opts line st1 n st' valid' encs' prev',
+    read_header chunk valid st = HdrOk level name id opts line st1 /\
+    is_content id = true /\ opt_get "length" opts = Some (VInt n) /\
+    List.length (remaining (st_stream st1)) < take_len n /\
+    iter_step orc chunk st valid encs prev = SYield r st' valid' encs' prev' /\
+    remaining (st_stream st') = [].
+
+Lemma short_read_facts : forall orc chunk st valid encs prev r,
+  short_read orc chunk st valid encs prev r ->
+  is_content (r_id r) = true /\
+  exists n, opt_get "length" (r_opts r) = Some (VInt n) /\ (0 < n)%Z.
+Proof.
+  intros orc chunk st valid encs prev r (level & name & id & opts & line & st1 & n & st' & v & e & p &
+                                         Hh & Hc & Hl & Hs & Hy & _).
+  destruct (iter_step_yield_header _ _ _ _ _ _ _ _ _ _ _ _ _ _ _ _ _ Hh Hy) as (_ & _ & -> & -> & _).
+  split; [exact Hc|]. exists n. split; [exact Hl|]. unfold take_len in Hs. lia.
+Qed.
+
+Definition trunc_outcome (orc : oracle) (chunk : nat) (d1 : bytes) (resT resF : list record * term) : Prop :=
+  exists rs1 extra,
+    fst resT = rs1 ++ extra /\ prefix rs1 (fst resF) /\
+    (extra = [] \/
+     exists r, extra = [r] /\
+       (exists st valid encs prev,
+           reachable orc chunk d1 st valid encs prev /\ short_read orc chunk st valid encs prev r) /\
+       (forall r', nth_error (fst resF) (List.length rs1) = Some r' -> hdr_eq r r') /\
+       (snd resT = TEnd \/ snd resT = TFuel)).
+
+Lemma trunc_outcome_stop : forall orc chunk d1 acc t resF,
+  (exists new, fst resF = rev acc ++ new) -> trunc_outcome orc chunk d1 (frev acc, t) resF.
+Proof.
+  intros orc chunk d1 acc t resF (new & Hn). exists (rev acc), []. cbn [fst]. rewrite frev_rev, app_nil_r.
+  split; [reflexivity|]. split; [exists new; exact Hn|left; reflexivity].
+Qed.
+
+Lemma iter_loop_extends : forall fuel orc chunk st valid encs prev acc,
+  exists new, fst (iter_loop fuel orc chunk st valid encs prev acc) = rev acc ++ new.
+Proof.
+  intros. destruct (iter_loop fuel orc chunk st valid encs prev acc) as [rs t] eqn:E.
+  apply iter_loop_path in E. destruct E as (new & -> & _). exists new. reflexivity.
+Qed.
+
+Lemma iter_loop_trunc : forall d2 orc chunk fT fF st valid encs prev acc,
+  0 < chunk -> fT <= fF ->
+  reachable orc chunk (s_data (st_stream st)) st valid encs prev ->
+  trunc_outcome orc chunk (s_data (st_stream st))
+                (iter_loop fT orc chunk st valid encs prev acc)
+                (iter_loop fF orc chunk (lift d2 st) valid encs prev acc).
+Proof.
+  intros d2 orc chunk. induction fT as [|f IH]; intros fF st valid encs prev acc Hc Hf Hreach.
+  - cbn [iter_loop]. apply trunc_outcome_stop. apply iter_loop_extends.
+  - destruct fF as [|f']; [lia|].
+    pose proof (reachable_wf _ _ _ _ _ _ _ Hc Hreach) as Hwf.
+    rewrite (iter_loop_S f orc chunk st).
+    destruct (iter_step_lift d2 orc chunk st valid encs prev Hc Hwf) as [A|[Bc|C]].
+    + (* identical iteration *)
+      rewrite (iter_loop_S f'), A.
+      destruct (iter_step orc chunk st valid encs prev) as [|r st' v e p|l c|e] eqn:Hs; cbn [lift_step];
+        try (apply trunc_outcome_stop; exists []; cbn [fst]; rewrite frev_rev, app_nil_r; reflexivity).
+      destruct (iter_step_progress _ _ _ _ _ _ _ _ _ _ _ Hc Hwf Hs) as (_ & D & _).
+      rewrite <- D. apply IH; [assumption|lia|]. rewrite D. econstructor; eassumption.
+    + (* the prefix ends before a complete header line: normal end *)
+      unfold iter_step at 1. rewrite Bc. apply trunc_outcome_stop. apply iter_loop_extends.
+    + (* short read *)
+      destruct C as (level & name & id & opts & line & st1 & n & Hh & HhF & W & Hcont & Hl & Hshort).
+      destruct (iter_step orc chunk st valid encs prev) as [|r st' v e p|l c|e] eqn:Hs;
+        try (apply trunc_outcome_stop; apply iter_loop_extends).
+      assert (remaining (st_stream st') = []) as Hex.
+      { destruct (iter_step_framing _ _ _ _ _ _ _ _ _ _ _ _ _ _ _ _ _ _ Hh Hcont Hl Hs) as (S1 & _ & S3 & _).
+        rewrite S1, remaining_advance', S3.
+        replace (Nat.min (take_len n) (List.length (remaining (st_stream st1))))
+          with (List.length (remaining (st_stream st1))) by lia.
+        apply skipn_all. }
+      rewrite iter_loop_exhausted by assumption.
+      exists (rev acc), [r]. cbn [fst snd rev]. split; [reflexivity|].
+      split; [apply iter_loop_extends|]. right. exists r. split; [reflexivity|]. split; [|split].
+      * exists st, valid, encs, prev. split; [exact Hreach|].
+        exists level, name, id, opts, line, st1, n, st', v, e, p. auto 10.
+      * intros r' Hr'. rewrite (iter_loop_S f') in Hr'.
+        pose proof (iter_step_yield_header _ _ _ _ _ _ _ _ _ _ _ _ _ _ _ _ _ Hh Hs) as (H1 & H2 & H3 & H4 & H5).
+        destruct (iter_step orc chunk (lift d2 st) valid encs prev) as [|rF stF' vF eF pF|lF cF|eF] eqn:HsF;
+          cbn [fst] in Hr';
+          try (rewrite frev_rev in Hr'; assert (nth_error (rev acc) (List.length (rev acc)) = None) as Q
+                 by (apply nth_error_None; lia); rewrite Q in Hr'; discriminate Hr').
+        destruct (iter_loop_extends f' orc chunk stF' vF eF pF (rF :: acc)) as (new & Hn).
+        rewrite Hn in Hr'. cbn [rev] in Hr'. rewrite <- app_assoc in Hr'.
+        rewrite nth_error_app2, Nat.sub_diag in Hr' by lia. cbn in Hr'. injection Hr' as <-.
+        pose proof (iter_step_yield_header _ _ _ _ _ _ _ _ _ _ _ _ _ _ _ _ _ HhF HsF) as (G1 & G2 & G3 & G4 & G5).
+        unfold hdr_eq. repeat split; congruence.
+      * destruct f; auto.
+Qed.
+
+(* C07, truncation, general form: d1 against d1 ++ d2 *)
+Theorem truncation_app : forall orc chunk d1 d2,
+  0 < chunk ->
+  let resT := read_all orc chunk d1 in
+  let resF := read_all orc chunk (d1 ++ d2) in
+  exists rs1 extra,
+    fst resT = rs1 ++ extra /\ prefix rs1 (fst resF) /\ List.length extra <= 1 /\
+    (forall r, extra = [r] ->
+       is_content (r_id r) = true /\
+       (exists n, opt_get "length" (r_opts r) = Some (VInt n) /\ (0 < n)%Z) /\
+       (exists st valid encs prev,
+           reachable orc chunk d1 st valid encs prev /\ short_read orc chunk st valid encs prev r) /\
+       (forall r', nth_error (fst resF) (List.length rs1) = Some r' -> hdr_eq r r') /\
+       snd resT = TEnd) /\
+    snd resT <> TFuel.
+Proof.
+  intros orc chunk d1 d2 Hc resT resF.
+  pose proof (read_all_no_fuel orc chunk d1 Hc) as Hnf. fold resT in Hnf.
+  assert (trunc_outcome orc chunk d1 resT resF) as H.
+  { subst resT resF. unfold read_all.
+    change {| st_stream := {| s_data := d1 ++ d2; s_pos := 0 |}; st_linenum := 0%Z; st_fnl := None |}
+      with (lift d2 {| st_stream := {| s_data := d1; s_pos := 0 |}; st_linenum := 0%Z; st_fnl := None |}).
+    apply (iter_loop_trunc d2 orc chunk (S (List.length d1)) (S (List.length (d1 ++ d2)))
+             {| st_stream := {| s_data := d1; s_pos := 0 |}; st_linenum := 0%Z; st_fnl := None |});
+      [assumption|rewrite app_length; lia|apply StreamFacts.reach_init]. }
+  destruct H as (rs1 & extra & H1 & H2 & H3). exists rs1, extra.
+  split; [exact H1|]. split; [exact H2|].
+  destruct H3 as [->|(r & -> & Hsr & Hhe & Ht)].
+  - split; [cbn; lia|]. split; [discriminate|exact Hnf].
+  - split; [cbn; lia|]. split; [|exact Hnf].
+    intros r0 E. injection E as <-.
+    destruct Hsr as (st & valid & encs & prev & Hre & Hsr).
+    destruct (short_read_facts _ _ _ _ _ _ _ Hsr) as (F1 & F2).
+    split; [exact F1|]. split; [exact F2|]. split; [eauto 8|]. split; [exact Hhe|].
+    destruct Ht as [Ht|Ht]; [exact Ht|contradiction].
+Qed.
+
+(* C07, truncation (partial): a file cut off at ANY byte position k. The records of the truncated file are
+   rs1 ++ extra where rs1 is a prefix of the intact file's records (identical records: same ids, options, payloads,
+   line numbers) and extra has at most one element. An extra record exists only as the result of a short read — a
+   content section whose declared length exceeds the bytes left — it has the same level/type/id/options/line as the
+   intact file's record at that index (if the intact run yields one there), and it is followed by normal end.
+   The model's fuel is never exhausted. *)
+Theorem truncation_partial : forall orc chunk data k,
+  0 < chunk -> k <= List.length data ->
+  let resT := read_all orc chunk (firstn k data) in
+  let resF := read_all orc chunk data in
+  exists rs1 extra,
+    fst resT = rs1 ++ extra /\ prefix rs1 (fst resF) /\ List.length extra <= 1 /\
+    (forall r, extra = [r] ->
+       is_content (r_id r) = true /\
+       (exists n, opt_get "length" (r_opts r) = Some (VInt n) /\ (0 < n)%Z) /\
+       (exists st valid encs prev,
+           reachable orc chunk (firstn k data) st valid encs prev /\ short_read orc chunk st valid encs prev r) /\
+       (forall r', nth_error (fst resF) (List.length rs1) = Some r' -> hdr_eq r r') /\
+       snd resT = TEnd) /\
+    snd resT <> TFuel.
+Proof.
+  intros orc chunk data k Hc _.
+  pose proof (truncation_app orc chunk (firstn k data) (skipn k data) Hc) as H.
+  rewrite firstn_skipn in H. exact H.
+Qed.
+
+(* termination of the truncated run, given that no exception other than DiffXParseError escapes (property C08) *)
+Corollary truncation_termination : forall orc chunk data k,
+  0 < chunk ->
+  (forall e, snd (read_all orc chunk (firstn k data)) <> TExc e) ->
+  snd (read_all orc chunk (firstn k data)) = TEnd \/
+  exists l c, snd (read_all orc chunk (firstn k data)) = TParse l c.
+Proof.
+  intros orc chunk data k Hc Hne. pose proof (read_all_no_fuel orc chunk (firstn k data) Hc) as Hnf.
+  destruct (snd (read_all orc chunk (firstn k data))) as [|l c|e|]; [left; reflexivity|right; eauto| |contradiction].
+  exfalso. exact (Hne e eq_refl).
+Qed.
